@@ -461,6 +461,14 @@ func do_PRINT_EXPR(vm *Vm, arg int32) error {
 	// After printing, also assign to '_'
 	// Before, set '_' to None to avoid recursion
 	value := vm.POP()
+	// If this context has a sys.displayhook (the REPL installs
+	// one) it deals with the value
+	if sys, err := vm.context.GetModule("sys"); err == nil {
+		if hook, ok := sys.Globals["displayhook"]; ok {
+			_, err := py.Call(hook, py.Tuple{value}, nil)
+			return err
+		}
+	}
 	vm.frame.Globals["_"] = py.None
 	if value != py.None {
 		repr, err := py.Repr(value)
